@@ -87,41 +87,187 @@ Proof.
   destruct (S _ C) as [E L]. rewrite (xeval_reval e _ E). exact L.
 Qed.
 
+(* ---------- exact decimal bounds ---------- *)
+Lemma powerRZ_10_nonneg k : (0 <= k)%Z -> powerRZ 10 k = IZR (10 ^ k).
+Proof.
+  intros Hk. rewrite <- (Z2Nat.id k Hk) at 1. rewrite <- pow_powerRZ.
+  change 10 with (IZR 10). rewrite pow_IZR. now rewrite Z2Nat.id.
+Qed.
+
+Lemma powerRZ_10_pos k : 0 < powerRZ 10 k.
+Proof. apply powerRZ_lt. lra. Qed.
+
+Definition bR (B : bnd) : R := IZR (fst B) * powerRZ 10 (snd B).
+
+Lemma bexp_real B : reval (bexp B) = bR B.
+Proof. reflexivity. Qed.
+
+Lemma shift_real c e m : (m <= e)%Z -> IZR (c * 10 ^ (e - m)) * powerRZ 10 m = IZR c * powerRZ 10 e.
+Proof.
+  intros H. rewrite mult_IZR. rewrite <- powerRZ_10_nonneg by lia.
+  replace e with ((e - m) + m)%Z at 2 by lia. rewrite powerRZ_add by lra. ring.
+Qed.
+
+Lemma badd_real A B : bR (badd A B) = bR A + bR B.
+Proof.
+  unfold bR, badd. cbn [fst snd].
+  set (m := Z.min (snd A) (snd B)).
+  rewrite plus_IZR, Rmult_plus_distr_r.
+  rewrite (shift_real (fst A) (snd A) m) by (unfold m; lia).
+  rewrite (shift_real (fst B) (snd B) m) by (unfold m; lia). reflexivity.
+Qed.
+
+Lemma bneg_real B : bR (bneg B) = - bR B.
+Proof. unfold bR, bneg. cbn [fst snd]. rewrite opp_IZR. ring. Qed.
+
+Lemma bsub_real A B : bR (bsub A B) = bR A - bR B.
+Proof. unfold bsub. rewrite badd_real, bneg_real. ring. Qed.
+
+Lemma bR_pos B : (0 < fst B)%Z -> 0 < bR B.
+Proof. intros H. unfold bR. apply Rmult_lt_0_compat; [now apply IZR_lt|apply powerRZ_10_pos]. Qed.
+
+Lemma bR_nonpos B : (fst B <= 0)%Z -> bR B <= 0.
+Proof.
+  intros H. unfold bR. apply IZR_le in H. pose proof (powerRZ_10_pos (snd B)). nra.
+Qed.
+
+Lemma bR_pow u : bR (1%Z, u) = powerRZ 10 u.
+Proof. unfold bR. cbn [fst snd]. lra. Qed.
+
+(* ---------- values and comparisons with bounds ---------- *)
+Definition value_R (a : value) : R :=
+  match a with VDir v => reval v | VExp w => Rtrigo_def.exp (reval w) end.
+
+Lemma exp_le_ln w b : 0 < b -> w - ln b <= 0 -> Rtrigo_def.exp w <= b.
+Proof.
+  intros Hb H. rewrite <- (exp_ln b Hb).
+  destruct (Req_dec w (ln b)) as [->|N]; [lra|]. left. apply exp_increasing. lra.
+Qed.
+Lemma exp_lt_ln w b : 0 < b -> w - ln b < 0 -> Rtrigo_def.exp w < b.
+Proof. intros Hb H. rewrite <- (exp_ln b Hb). apply exp_increasing. lra. Qed.
+Lemma exp_ge_ln w b : 0 < b -> ln b - w <= 0 -> b <= Rtrigo_def.exp w.
+Proof.
+  intros Hb H. rewrite <- (exp_ln b Hb).
+  destruct (Req_dec w (ln b)) as [->|N]; [lra|]. left. apply exp_increasing. lra.
+Qed.
+Lemma exp_gt_ln w b : 0 < b -> ln b - w < 0 -> b < Rtrigo_def.exp w.
+Proof. intros Hb H. rewrite <- (exp_ln b Hb). apply exp_increasing. lra. Qed.
+
+Lemma le_bound_sound bits a B : le_bound bits a B = true -> value_R a <= bR B.
+Proof.
+  destruct a as [v|w]; cbn [le_bound value_R].
+  - intros H. apply prove_le0_sound in H. cbn [reval] in H. rewrite bexp_real in H. lra.
+  - intros H. apply andb_prop in H. destruct H as [P H]. apply Z.ltb_lt in P.
+    apply prove_le0_sound in H. cbn [reval] in H. rewrite bexp_real in H.
+    apply exp_le_ln; [now apply bR_pos|exact H].
+Qed.
+
+Lemma lt_bound_sound bits a B : lt_bound bits a B = true -> value_R a < bR B.
+Proof.
+  destruct a as [v|w]; cbn [lt_bound value_R].
+  - intros H. apply prove_lt0_sound in H. cbn [reval] in H. rewrite bexp_real in H. lra.
+  - intros H. apply andb_prop in H. destruct H as [P H]. apply Z.ltb_lt in P.
+    apply prove_lt0_sound in H. cbn [reval] in H. rewrite bexp_real in H.
+    apply exp_lt_ln; [now apply bR_pos|exact H].
+Qed.
+
+Lemma ge_bound_sound bits a B : ge_bound bits a B = true -> bR B <= value_R a.
+Proof.
+  destruct a as [v|w]; cbn [ge_bound value_R].
+  - intros H. apply prove_le0_sound in H. cbn [reval] in H. rewrite bexp_real in H. lra.
+  - destruct (fst B <=? 0)%Z eqn:P; cbn [orb].
+    + intros _. apply Z.leb_le in P. pose proof (bR_nonpos B P). pose proof (exp_pos (reval w)). lra.
+    + intros H. apply Z.leb_gt in P. apply prove_le0_sound in H. cbn [reval] in H. rewrite bexp_real in H.
+      apply exp_ge_ln; [now apply bR_pos|exact H].
+Qed.
+
+Lemma gt_bound_sound bits a B : gt_bound bits a B = true -> bR B < value_R a.
+Proof.
+  destruct a as [v|w]; cbn [gt_bound value_R].
+  - intros H. apply prove_lt0_sound in H. cbn [reval] in H. rewrite bexp_real in H. lra.
+  - destruct (fst B <=? 0)%Z eqn:P; cbn [orb].
+    + intros _. apply Z.leb_le in P. pose proof (bR_nonpos B P). pose proof (exp_pos (reval w)). lra.
+    + intros H. apply Z.leb_gt in P. apply prove_lt0_sound in H. cbn [reval] in H. rewrite bexp_real in H.
+      apply exp_gt_ln; [now apply bR_pos|exact H].
+Qed.
+
+Lemma abs_ge_sound bits a T : abs_ge bits a T = true -> bR T <= Rabs (value_R a).
+Proof.
+  unfold abs_ge. intros H. apply orb_prop in H. destruct H as [H|H].
+  - apply ge_bound_sound in H. pose proof (Rle_abs (value_R a)). lra.
+  - apply le_bound_sound in H. rewrite bneg_real in H. pose proof (Rle_abs (- value_R a)).
+    rewrite Rabs_Ropp in H0. lra.
+Qed.
+
+Lemma abs_lt_sound bits a T : abs_lt bits a T = true -> Rabs (value_R a) < bR T.
+Proof.
+  unfold abs_lt. intros H. apply andb_prop in H. destruct H as [H1 H2].
+  apply lt_bound_sound in H1. apply gt_bound_sound in H2. rewrite bneg_real in H2.
+  apply Rabs_def1; lra.
+Qed.
+
+Lemma abs_gt_sound bits a T : abs_gt bits a T = true -> bR T < Rabs (value_R a).
+Proof.
+  unfold abs_gt. intros H. apply orb_prop in H. destruct H as [H|H].
+  - apply gt_bound_sound in H. pose proof (Rle_abs (value_R a)). lra.
+  - apply lt_bound_sound in H. rewrite bneg_real in H. pose proof (Rle_abs (- value_R a)).
+    rewrite Rabs_Ropp in H0. lra.
+Qed.
+
+Lemma within_tol_sound bits a d tol : within_tol bits a d tol = true -> Rabs (value_R a - bR d) <= bR tol.
+Proof.
+  unfold within_tol. intros H. apply andb_prop in H. destruct H as [H1 H2].
+  apply ge_bound_sound in H1. apply le_bound_sound in H2.
+  rewrite bsub_real in H1. rewrite badd_real in H2.
+  apply Rabs_le. lra.
+Qed.
+
+Lemma beyond_tol_sound bits a d tol : beyond_tol bits a d tol = true -> bR tol < Rabs (value_R a - bR d).
+Proof.
+  unfold beyond_tol. intros H. apply orb_prop in H. destruct H as [H|H].
+  - apply lt_bound_sound in H. rewrite bsub_real in H.
+    pose proof (Rle_abs (- (value_R a - bR d))). rewrite Rabs_Ropp in H0. lra.
+  - apply gt_bound_sound in H. rewrite badd_real in H.
+    pose proof (Rle_abs (value_R a - bR d)). lra.
+Qed.
+
+Lemma within_of_sound bits a d u : within_of bits a d u = true -> Rabs (value_R a - bR d) <= powerRZ 10 u.
+Proof. intros H. apply within_tol_sound in H. now rewrite bR_pow in H. Qed.
+
+Lemma beyond_of_sound bits a d u : beyond_of bits a d u = true -> powerRZ 10 u < Rabs (value_R a - bR d).
+Proof. intros H. apply beyond_tol_sound in H. now rewrite bR_pow in H. Qed.
+
+Lemma near_miss_sound bits a d u : near_miss bits a d u = true -> Rabs (value_R a - bR d) <= 15 * powerRZ 10 (u - 1).
+Proof. intros H. apply within_tol_sound in H. exact H. Qed.
+
 (* ---------- the one-unit predicate and its two verdicts ---------- *)
 Definition one_ulp (v d : R) (adj u : Z) : Prop :=
   Rabs (v - d) <= powerRZ 10 u \/ (powerRZ 10 (adj + 1) <= Rabs v /\ Rabs (v - d) <= powerRZ 10 (u + 1)).
 
-Lemma reval_err_small v d u : reval (err_small v d u) = Rabs (reval v - reval d) - powerRZ 10 u.
-Proof. cbn [err_small reval]. lra. Qed.
-Lemma reval_decade_above v adj : reval (decade_above v adj) = powerRZ 10 (adj + 1) - Rabs (reval v).
-Proof. cbn [decade_above reval]. lra. Qed.
-
-Theorem judge_ulp_within bits v d adj u :
-  judge_ulp bits v d adj u = VWithin -> one_ulp (reval v) (reval d) adj u.
+Theorem judge_ulp_within bits a d adj u :
+  judge_ulp bits a d adj u = VWithin -> one_ulp (value_R a) (bR d) adj u.
 Proof.
   unfold judge_ulp, one_ulp.
-  destruct (prove_le0 bits (err_small v d u)) eqn:A.
-  { intros _. left. apply prove_le0_sound in A. rewrite reval_err_small in A. lra. }
-  destruct (prove_le0 bits (decade_above v adj) && prove_le0 bits (err_small v d (u + 1))) eqn:B.
+  destruct (within_of bits a d u) eqn:A.
+  { intros _. left. now apply within_of_sound in A. }
+  destruct (abs_ge bits a (1%Z, (adj + 1)%Z) && within_of bits a d (u + 1)) eqn:B.
   { intros _. apply andb_prop in B. destruct B as [B1 B2].
-    apply prove_le0_sound in B1, B2. rewrite reval_decade_above in B1. rewrite reval_err_small in B2.
-    right. split; lra. }
-  destruct (prove_gt0 bits (err_small v d u) && _); discriminate.
+    apply abs_ge_sound in B1. rewrite bR_pow in B1. apply within_of_sound in B2. right. split; assumption. }
+  destruct (beyond_of bits a d u && _); discriminate.
 Qed.
 
-Theorem judge_ulp_beyond bits v d adj u :
-  judge_ulp bits v d adj u = VBeyond -> ~ one_ulp (reval v) (reval d) adj u.
+Theorem judge_ulp_beyond bits a d adj u :
+  judge_ulp bits a d adj u = VBeyond -> ~ one_ulp (value_R a) (bR d) adj u.
 Proof.
   unfold judge_ulp, one_ulp.
-  destruct (prove_le0 bits (err_small v d u)); [discriminate|].
-  destruct (prove_le0 bits (decade_above v adj) && prove_le0 bits (err_small v d (u + 1))); [discriminate|].
-  destruct (prove_gt0 bits (err_small v d u)) eqn:A; [|discriminate]. cbn [andb].
-  destruct (prove_gt0 bits (decade_above v adj)) eqn:B; cbn [orb].
-  { intros _. apply prove_gt0_sound in A, B. rewrite reval_err_small in A. rewrite reval_decade_above in B.
-    intros [H|[H1 H2]]; lra. }
-  destruct (prove_gt0 bits (err_small v d (u + 1))) eqn:C; [|discriminate].
-  intros _. apply prove_gt0_sound in A, C. rewrite reval_err_small in A, C.
-  intros [H|[H1 H2]]; lra.
+  destruct (within_of bits a d u); [discriminate|].
+  destruct (abs_ge bits a (1%Z, (adj + 1)%Z) && within_of bits a d (u + 1)); [discriminate|].
+  destruct (beyond_of bits a d u) eqn:A; [|discriminate]. cbn [andb].
+  apply beyond_of_sound in A.
+  destruct (abs_lt bits a (1%Z, (adj + 1)%Z)) eqn:B; cbn [orb].
+  { intros _. apply abs_lt_sound in B. rewrite bR_pow in B. intros [H|[H1 H2]]; lra. }
+  destruct (beyond_of bits a d (u + 1)) eqn:C; [|discriminate].
+  intros _. apply beyond_of_sound in C. intros [H|[H1 H2]]; lra.
 Qed.
 
 (* ---------- the expressions mean the functions of the property ---------- *)
@@ -138,24 +284,20 @@ Definition real_value (t : top) (x y : dec) : R :=
             end
   end.
 
+Lemma bR_bdec d : bR (bdec d) = D2R d.
+Proof. reflexivity. Qed.
 Lemma reval_sdec d : reval (sdec d) = D2R d.
 Proof. reflexivity. Qed.
 
-Lemma reval_value_expr t x y : reval (value_expr t x y) = real_value t x y.
+Lemma value_R_value_expr t x y : value_R (value_expr t x y) = real_value t x y.
 Proof.
-  destruct t; cbn [value_expr real_value reval]; rewrite ?reval_sdec; try reflexivity.
-  destruct (int_value y); cbn [reval]; rewrite ?reval_sdec; reflexivity.
+  destruct t; cbn [value_expr real_value value_R reval]; rewrite ?reval_sdec; try reflexivity.
+  destruct (int_value y); cbn [value_R reval]; rewrite ?reval_sdec; reflexivity.
 Qed.
 
 (* for positive x and an integer exponent both readings of x**y agree *)
 Lemma pow_int_is_rpower (x : R) (n : Z) : 0 < x -> powerRZ x n = Rpower x (IZR n).
 Proof. apply powerRZ_Rpower. Qed.
-
-Lemma powerRZ_10_nonneg k : (0 <= k)%Z -> powerRZ 10 k = IZR (10 ^ k).
-Proof.
-  intros Hk. rewrite <- (Z2Nat.id k Hk) at 1. rewrite <- pow_powerRZ.
-  change 10 with (IZR 10). rewrite pow_IZR. now rewrite Z2Nat.id.
-Qed.
 
 (* int_value is the value when it is an integer *)
 Lemma int_value_spec y n : int_value y = Some n -> D2R y = IZR n.
@@ -181,6 +323,32 @@ Definition general_case (t : top) (c : ctx) (x y : dec) (o : obs) : Prop :=
   in_domain t x y && wf_ctx c && (1 <=? prec c)%Z = true /\ system_err (o_err o) = false /\
   exact_cell t (prec c) x y = None.
 
+Lemma check_overflow_codes bits a c k :
+  In k (check_overflow bits a c) -> k = O_TR_OVERFLOW \/ k = O_TR_UNKNOWN.
+Proof.
+  unfold check_overflow. destruct (abs_gt _ _ _); [intros []|].
+  destruct (abs_lt _ _ _); intros [H|[]]; auto.
+Qed.
+Lemma check_underflow_codes bits a c k :
+  In k (check_underflow bits a c) -> k = O_TR_UNDERFLOW \/ k = O_TR_UNKNOWN.
+Proof.
+  unfold check_underflow. destruct (abs_lt _ _ _); [intros []|].
+  destruct (abs_gt _ _ _); intros [H|[]]; auto.
+Qed.
+
+Lemma check_ulp_codes bits a c d k :
+  In k (check_ulp bits a c d) -> k = O_TR_ULP \/ k = O_TR_NEAR \/ k = O_TR_UNKNOWN.
+Proof.
+  unfold check_ulp. destruct (judge_ulp _ _ _ _ _); [intros []| |].
+  - intros [H|H]; [auto|]. destruct (near_miss _ _ _ _); [|destruct H]. destruct H as [H|[]]; auto.
+  - intros [H|[]]; auto.
+Qed.
+
+Lemma codes_distinct : O_TR_ULP <> O_TR_OVERFLOW /\ O_TR_ULP <> O_TR_UNKNOWN /\ O_TR_ULP <> O_TR_UNDERFLOW
+  /\ O_TR_ULP <> O_TR_FORM /\ O_TR_OVERFLOW <> O_TR_UNKNOWN /\ O_TR_OVERFLOW <> O_TR_UNDERFLOW
+  /\ O_TR_OVERFLOW <> O_TR_FORM /\ O_TR_UNDERFLOW <> O_TR_UNKNOWN /\ O_TR_UNDERFLOW <> O_TR_FORM.
+Proof. repeat split; discriminate. Qed.
+
 Theorem c12_ulp_alarm_is_violation bits t c x y o :
   general_case t c x y o ->
   In O_TR_ULP (oracle_c12 bits t c x y o) ->
@@ -190,16 +358,16 @@ Proof.
   destruct (form_of (o_dec o)).
   - destruct (coeff (o_dec o) <? 0)%Z; [intros [H|[]]; discriminate|].
     destruct (Overflow (o_cond o)).
-    { destruct (prove_lt0 _ _); [intros []|]. destruct (prove_gt0 _ _); intros [H|[]]; discriminate. }
+    { intros H. apply check_overflow_codes in H. destruct H; discriminate. }
     intros H. apply in_app_or in H. destruct H as [H|H].
-    + destruct (judge_ulp bits (value_expr t x y) (sdec (o_dec o)) (adj_of (o_dec o)) (ulp_exp c (o_dec o))) eqn:J.
+    + unfold check_ulp in H.
+      destruct (judge_ulp bits (value_expr t x y) (bdec (o_dec o)) (adj_of (o_dec o)) (ulp_exp c (o_dec o))) eqn:J.
       * destruct H.
-      * apply judge_ulp_beyond in J. now rewrite reval_value_expr, reval_sdec in J.
+      * apply judge_ulp_beyond in J. now rewrite value_R_value_expr, bR_bdec in J.
       * destruct H as [H|[]]; discriminate.
     + destruct (Underflow (o_cond o)); [|destruct H].
-      destruct (prove_lt0 _ _); [destruct H|]. destruct (prove_gt0 _ _); destruct H as [H|[]]; discriminate.
-  - destruct (negb (Overflow (o_cond o))); [intros [H|[]]; discriminate|].
-    destruct (prove_lt0 _ _); [intros []|]. destruct (prove_gt0 _ _); intros [H|[]]; discriminate.
+      apply check_underflow_codes in H. destruct H; discriminate.
+  - intros H. apply check_overflow_codes in H. destruct H; discriminate.
   - intros [H|[]]; discriminate.
   - intros [H|[]]; discriminate.
 Qed.
@@ -212,60 +380,109 @@ Theorem c12_silent_means_within bits t c x y o :
 Proof.
   intros (G1 & G2 & G3) HF HO. unfold oracle_c12. rewrite G1, G2, G3, HF, HO. cbn [negb].
   destruct (coeff (o_dec o) <? 0)%Z; [discriminate|].
-  intros H. apply app_eq_nil in H. destruct H as [H _].
-  destruct (judge_ulp bits (value_expr t x y) (sdec (o_dec o)) (adj_of (o_dec o)) (ulp_exp c (o_dec o))) eqn:J;
+  intros H. apply app_eq_nil in H. destruct H as [H _]. unfold check_ulp in H.
+  destruct (judge_ulp bits (value_expr t x y) (bdec (o_dec o)) (adj_of (o_dec o)) (ulp_exp c (o_dec o))) eqn:J;
     try discriminate.
-  apply judge_ulp_within in J. now rewrite reval_value_expr, reval_sdec in J.
+  apply judge_ulp_within in J. now rewrite value_R_value_expr, bR_bdec in J.
 Qed.
 
 (* an Overflow alarm: the exact value is proven to lie more than one unit below the largest finite number *)
-Definition nmax_R (c : ctx) : R := IZR (10 ^ prec c - 1) * powerRZ 10 (emax c - prec c + 1).
+Definition over_limit_R (c : ctx) : R := IZR (10 ^ prec c - 2) * powerRZ 10 (emax c - prec c + 1).
+Definition under_limit_R (c : ctx) : R := powerRZ 10 (emin c) + powerRZ 10 (etiny c).
+
+Lemma check_overflow_alarm bits a c : In O_TR_OVERFLOW (check_overflow bits a c) -> Rabs (value_R a) < over_limit_R c.
+Proof.
+  unfold check_overflow. destruct (abs_gt _ _ _); [intros []|].
+  destruct (abs_lt bits a (over_limit c)) eqn:A; [|intros [H|[]]; discriminate].
+  intros _. now apply abs_lt_sound in A.
+Qed.
+Lemma check_underflow_alarm bits a c : In O_TR_UNDERFLOW (check_underflow bits a c) -> under_limit_R c < Rabs (value_R a).
+Proof.
+  unfold check_underflow. destruct (abs_lt _ _ _); [intros []|].
+  destruct (abs_gt bits a (under_limit c)) eqn:A; [|intros [H|[]]; discriminate].
+  intros _. apply abs_gt_sound in A. unfold under_limit in A. rewrite badd_real, !bR_pow in A. exact A.
+Qed.
+(* ... and their silence: the exact value is proven to lie beyond the limit *)
+Lemma check_overflow_silent bits a c : check_overflow bits a c = [] -> over_limit_R c < Rabs (value_R a).
+Proof.
+  unfold check_overflow. destruct (abs_gt bits a (over_limit c)) eqn:A.
+  - intros _. now apply abs_gt_sound in A.
+  - destruct (abs_lt _ _ _); discriminate.
+Qed.
+Lemma check_underflow_silent bits a c : check_underflow bits a c = [] -> Rabs (value_R a) < under_limit_R c.
+Proof.
+  unfold check_underflow. destruct (abs_lt bits a (under_limit c)) eqn:A.
+  - intros _. apply abs_lt_sound in A. unfold under_limit in A. rewrite badd_real, !bR_pow in A. exact A.
+  - destruct (abs_gt _ _ _); discriminate.
+Qed.
 
 Theorem c12_overflow_alarm_is_violation bits t c x y o :
   general_case t c x y o ->
   In O_TR_OVERFLOW (oracle_c12 bits t c x y o) ->
-  Rabs (real_value t x y) < nmax_R c - powerRZ 10 (emax c - prec c + 1).
+  Rabs (real_value t x y) < over_limit_R c.
 Proof.
   intros (G1 & G2 & G3). unfold oracle_c12. rewrite G1, G2, G3. cbn [negb].
-  assert (K : prove_gt0 bits (RSub (RSub (nmax_expr c) (RDec 1 (emax c - prec c + 1))) (RAbs (value_expr t x y))) = true ->
-              Rabs (real_value t x y) < nmax_R c - powerRZ 10 (emax c - prec c + 1)).
-  { intros A. apply prove_gt0_sound in A. cbn [reval nmax_expr] in A. rewrite reval_value_expr in A.
-    unfold nmax_R. lra. }
+  rewrite <- value_R_value_expr.
   destruct (form_of (o_dec o)).
   - destruct (coeff (o_dec o) <? 0)%Z; [intros [H|[]]; discriminate|].
-    destruct (Overflow (o_cond o)).
-    { destruct (prove_lt0 _ _); [intros []|]. destruct (prove_gt0 _ _) eqn:A; [intros _; now apply K|].
-      intros [H|[]]; discriminate. }
+    destruct (Overflow (o_cond o)); [apply (check_overflow_alarm bits)|].
     intros H. apply in_app_or in H. destruct H as [H|H].
-    + destruct (judge_ulp _ _ _ _ _); [destruct H| |]; destruct H as [H|[]]; discriminate.
-    + clear K. destruct (Underflow (o_cond o)); [|destruct H].
-      destruct (prove_lt0 _ _); [destruct H|]. destruct (prove_gt0 _ _); destruct H as [H|[]]; discriminate.
-  - destruct (negb (Overflow (o_cond o))); [intros [H|[]]; discriminate|].
-    destruct (prove_lt0 _ _); [intros []|]. destruct (prove_gt0 _ _) eqn:A; [intros _; now apply K|].
-    intros [H|[]]; discriminate.
+    + apply check_ulp_codes in H. destruct H as [H|[H|H]]; discriminate.
+    + destruct (Underflow (o_cond o)); [|destruct H].
+      apply check_underflow_codes in H. destruct H; discriminate.
+  - apply (check_overflow_alarm bits).
   - intros [H|[]]; discriminate.
   - intros [H|[]]; discriminate.
 Qed.
 
-(* an Underflow alarm: the exact value is proven to lie more than one unit above the bottom of the normal range *)
 Theorem c12_underflow_alarm_is_violation bits t c x y o :
   general_case t c x y o ->
   In O_TR_UNDERFLOW (oracle_c12 bits t c x y o) ->
-  powerRZ 10 (emin c) + powerRZ 10 (etiny c) < Rabs (real_value t x y).
+  under_limit_R c < Rabs (real_value t x y).
 Proof.
   intros (G1 & G2 & G3). unfold oracle_c12. rewrite G1, G2, G3. cbn [negb].
+  rewrite <- value_R_value_expr.
   destruct (form_of (o_dec o)).
   - destruct (coeff (o_dec o) <? 0)%Z; [intros [H|[]]; discriminate|].
     destruct (Overflow (o_cond o)).
-    { destruct (prove_lt0 _ _); [intros []|]. destruct (prove_gt0 _ _); intros [H|[]]; discriminate. }
+    { intros H. apply check_overflow_codes in H. destruct H; discriminate. }
     intros H. apply in_app_or in H. destruct H as [H|H].
-    + destruct (judge_ulp _ _ _ _ _); [destruct H| |]; destruct H as [H|[]]; discriminate.
+    + apply check_ulp_codes in H. destruct H as [H|[H|H]]; discriminate.
+    + destruct (Underflow (o_cond o)); [|destruct H]. now apply (check_underflow_alarm bits) in H.
+  - intros H. apply check_overflow_codes in H. destruct H; discriminate.
+  - intros [H|[]]; discriminate.
+  - intros [H|[]]; discriminate.
+Qed.
+
+(* an infinite result that raises no alarm: the exact value is proven to exceed the largest finite number minus one unit *)
+Theorem c12_silent_infinity_is_overflow bits t c x y o :
+  general_case t c x y o -> form_of (o_dec o) = Infinite ->
+  oracle_c12 bits t c x y o = [] -> over_limit_R c < Rabs (real_value t x y).
+Proof.
+  intros (G1 & G2 & G3) HF. unfold oracle_c12. rewrite G1, G2, G3, HF. cbn [negb].
+  rewrite <- value_R_value_expr. apply (check_overflow_silent bits).
+Qed.
+
+(* the qualifier attached to an alarm: the result is proven within 1.5 units *)
+Theorem c12_near_qualifier_sound bits t c x y o :
+  general_case t c x y o ->
+  In O_TR_NEAR (oracle_c12 bits t c x y o) ->
+  Rabs (real_value t x y - D2R (o_dec o)) <= 15 * powerRZ 10 (ulp_exp c (o_dec o) - 1).
+Proof.
+  intros (G1 & G2 & G3). unfold oracle_c12. rewrite G1, G2, G3. cbn [negb].
+  rewrite <- value_R_value_expr.
+  destruct (form_of (o_dec o)).
+  - destruct (coeff (o_dec o) <? 0)%Z; [intros [H|[]]; discriminate|].
+    destruct (Overflow (o_cond o)).
+    { intros H. apply check_overflow_codes in H. destruct H; discriminate. }
+    intros H. apply in_app_or in H. destruct H as [H|H].
+    + unfold check_ulp in H. destruct (judge_ulp _ _ _ _ _); [destruct H| |destruct H as [H|[]]; discriminate].
+      destruct H as [H|H]; [discriminate|].
+      destruct (near_miss bits (value_expr t x y) (bdec (o_dec o)) (ulp_exp c (o_dec o))) eqn:N; [|destruct H].
+      apply near_miss_sound in N. now rewrite bR_bdec in N.
     + destruct (Underflow (o_cond o)); [|destruct H].
-      destruct (prove_lt0 _ _); [destruct H|]. destruct (prove_gt0 _ _) eqn:A.
-      * apply prove_gt0_sound in A. cbn [reval] in A. rewrite reval_value_expr in A. lra.
-      * destruct H as [H|[]]; discriminate.
-  - destruct (negb (Overflow (o_cond o))); [intros [H|[]]; discriminate|].
-    destruct (prove_lt0 _ _); [intros []|]. destruct (prove_gt0 _ _); intros [H|[]]; discriminate.
+      apply check_underflow_codes in H. destruct H; discriminate.
+  - intros H. apply check_overflow_codes in H. destruct H; discriminate.
   - intros [H|[]]; discriminate.
   - intros [H|[]]; discriminate.
 Qed.
